@@ -17,7 +17,7 @@ from common import Judge, MachineryError, run_tlc
 import gamma
 
 PID = "C07"
-FAR_MAGS = [1e-5, 1e-3, 1.0]
+FAR_MAGS = [3e-6, 1e-5, 1e-3, 1.0]        # all beyond the 1e-6 band of the statement
 NEAR_MAGS = [1e-12, 1e-9, 1e-7]
 
 
@@ -150,10 +150,15 @@ def construct_case(j, e, rng):
             # rotation block / all off-diagonal entries of a twist matrix are covered across the magnitudes
             items = [defect(mcls, k, mem[(i + v) % len(mem)], mag, v + i + 3 * mi) for i, k in enumerate(kinds)]
             variants.append((mag, v, items))
+    if far_present and cls in ("SO2", "SE2", "SO3", "SE3"):
+        variants += [(mag, v, [np.asarray(a, dtype=np.float32) for a in items]) for mag, v, items in variants]
     for mag, v, items in variants:
         arg = items[0] if form == "bare" else (list(items) if form == "list" else tuple(items))
-        feat = "%s;%s;mag=%g" % (form, ",".join(kinds), mag)
-        cid = (spec_cls, form, tuple(kinds))
+        if form == "array":
+            arg = np.array(items)
+        f32 = any(np.asarray(a).dtype == np.float32 for a in items)
+        feat = "%s;%s;mag=%g%s" % (form, ",".join(kinds), mag, ";float32" if f32 else "")
+        cid = (spec_cls, form, tuple(kinds), f32)
         site = ("UnitQuaternion(3x3)" if spec_cls != cls else cls) + ".__init__"
         detail = {"kind": "construct", "cls": cls, "form": form, "kinds": kinds, "mag": mag, "variant": v,
                   "items": [np.asarray(x).tolist() for x in items]}
@@ -394,9 +399,14 @@ def predicate_case(j, e, rng):
            "SO3.isvalid": lambda a: SO3.isvalid(a, check=True), "SE3.isvalid": lambda a: SE3.isvalid(a, check=True),
            "Twist2.isvalid": lambda a: Twist2.isvalid(a, check=True),
            "Twist3.isvalid": lambda a: Twist3.isvalid(a, check=True)}
-    for arg, mag in predicate_args(pred, kind, rng):
-        cid = (pred, kind)
-        feat = "%s;mag=%g" % (kind, mag)
+    args = list(predicate_args(pred, kind, rng))
+    if expect == "false" and kind in ("nonorth", "scaled", "reflection", "lastrow"):
+        # the same far arrays in SINGLE precision (the distance from the group is a property of the values, not of
+        # the element type): still rejected
+        args += [(np.asarray(a, dtype=np.float32), mg) for a, mg in args if np.asarray(a).dtype.kind == "f"]
+    for arg, mag in args:
+        cid = (pred, kind, str(np.asarray(arg).dtype))
+        feat = "%s;mag=%g%s" % (kind, mag, ";float32" if np.asarray(arg).dtype == np.float32 else "")
         detail = {"kind": "predicate", "pred": pred, "argkind": kind, "mag": mag,
                   "arg": np.asarray(arg).tolist()}
         try:
